@@ -537,7 +537,18 @@ fn json_mutate(kind: &str, data: &mut Vec<u8>, t: &mut Tape) -> bool {
             }
             let (k, s) = &c.strings[t.index(c.strings.len())];
             let len = BOUNDARY_LENGTHS[t.index(BOUNDARY_LENGTHS.len())];
-            let long = lengthen(s, len);
+            // a quarter of the long strings are multi-byte characters behind 0-3 ASCII ones, so that
+            // every fixed byte offset falls inside a character for some of them
+            let long = if t.chance(1, 4) {
+                let unit = *t.pick(&["\u{e9}", "\u{20ac}", "\u{1F600}"]);
+                let mut l: String = s.chars().take(t.below(4) as usize).filter(|c| c.is_ascii()).collect();
+                while l.len() + unit.len() <= len.min(4096) {
+                    l.push_str(unit);
+                }
+                l
+            } else {
+                lengthen(s, len)
+            };
             JsonOp::Replace(*k, serde_json::to_string(&long).unwrap_or_else(|_| "\"\"".into()))
         }
         "json_string_edit" => {
